@@ -45,6 +45,7 @@ func certQuorumOf(T uint64) uint64 {
 type stubChain struct {
 	headers map[uint64]*types.Header
 	set     *forge.Set
+	set2    *forge.Set // the validator set as of OTHER heights (seed look-back header, parent)
 	yp      *params.YouParams
 }
 
@@ -71,6 +72,9 @@ func (c *stubChain) GetHeaderByHash(h common.Hash) *types.Header {
 func (c *stubChain) GetBlock(common.Hash, uint64) *types.Block { return nil }
 func (c *stubChain) GetBlockByNumber(uint64) *types.Block      { return nil }
 func (c *stubChain) GetVldReader(root common.Hash) (state.ValidatorReader, error) {
+	if c.set2 != nil && root == c.set2.ValRoot && root != c.set.ValRoot {
+		return state.NewVldReader(root, c.set2.DB, false)
+	}
 	return state.NewVldReader(root, c.set.DB, false)
 }
 func (c *stubChain) GetAcReader() rawdb.AcReader        { return nil }
@@ -108,6 +112,9 @@ type world struct {
 	certSeed common.Hash
 	r      *rand.Rand
 	set    *forge.Set
+	set2   *forge.Set // same keys, the records as of the seed look-back header and the parent: other status/stake, one more member
+	hnX      [2]*honest // an honest header's ingredients under set2 / on the other seed
+	hnXTried [2]bool
 	yp     *params.YouParams
 	chain  *stubChain
 	seed   common.Hash
@@ -154,22 +161,45 @@ func specsFor(r *rand.Rand, cfg int) []env.ValSpec {
 func newWorld(r *rand.Rand, cfg int, cert bool) (*world, error) {
 	env.Init()
 	yp := params.Versions[params.YouV5]
-	set, err := forge.NewSet(env.Keyring{Seed: r.Int63()}, specsFor(r, cfg))
+	keys := env.Keyring{Seed: r.Int63()}
+	specs := specsFor(r, cfg)
+	set, err := forge.NewSet(keys, specs)
 	if err != nil {
 		return nil, err
 	}
-	w := &world{r: r, set: set, yp: &yp, cert: cert, number: 100}
+	// the same validators 8 and 15 blocks later: offline chamber members came online, stakes moved,
+	// a House validator became a Senator, one validator joined
+	specs2 := append([]env.ValSpec{}, specs...)
+	for i := range specs2 {
+		if specs2[i].Status != uint8(params.ValidatorOnline) {
+			specs2[i].Status = uint8(params.ValidatorOnline)
+		}
+		if specs2[i].Role == params.RoleHouse {
+			specs2[i].Role = params.RoleSenator
+		}
+		if i%2 == 1 {
+			specs2[i].Tokens = new(big.Int).Mul(specs2[i].Tokens, big.NewInt(3))
+		}
+	}
+	specs2 = append(specs2, env.ValSpec{Role: params.RoleSenator, Status: uint8(params.ValidatorOnline), Tokens: env.YOU(4000), Operator: 0})
+	set2, err := forge.NewSet(keys, specs2)
+	if err != nil {
+		return nil, err
+	}
+	w := &world{r: r, set: set, set2: set2, yp: &yp, cert: cert, number: 100}
 	if cert {
 		w.number = params.ACoCHTFrequency
 	}
 	r.Read(w.seed[:])
 	r.Read(w.certSeed[:])
-	w.chain = &stubChain{headers: map[uint64]*types.Header{}, set: set, yp: &yp}
+	w.chain = &stubChain{headers: map[uint64]*types.Header{}, set: set, set2: set2, yp: &yp}
 	// seed look-back 8, stake look-back 16; certificate look-backs 32768 / 65536 -> genesis
 	n := w.number
 	w.chain.headers[n-16] = forge.SeedHeader(n-16, common.Hash{1}, set.ValRoot, params.YouV5)
-	w.chain.headers[n-8] = forge.SeedHeader(n-8, w.seed, set.ValRoot, params.YouV5)
-	w.parent = forge.SeedHeader(n-1, common.Hash{2}, set.ValRoot, params.YouV5)
+	// only the header at the STAKE look-back (n-16) carries the validator set that counts; the seed
+	// look-back header and the parent carry the later records
+	w.chain.headers[n-8] = forge.SeedHeader(n-8, w.seed, set2.ValRoot, params.YouV5)
+	w.parent = forge.SeedHeader(n-1, common.Hash{2}, set2.ValRoot, params.YouV5)
 	w.chain.headers[n-1] = w.parent
 	if cert {
 		cp := yp.CaravelParams
@@ -192,17 +222,21 @@ type honest struct {
 	creds    map[int]forge.Credential // precommit credentials under the protocol threshold, per member index
 }
 
-func (w *world) findHonest() *honest {
+func (w *world) findHonest() *honest { return w.findHonestIn(w.set, w.seed) }
+
+// findHonestIn: the same search over the records of set (w.set: the look-back set that counts;
+// w.set2: the records of other heights, for the "whole header as another height would justify it" operator).
+func (w *world) findHonestIn(set *forge.Set, seed common.Hash) *honest {
 	cp := w.yp.CaravelParams
 	for index := uint32(1); index < 60; index++ {
 		var best *forge.Member
 		var bestCred forge.Credential
 		var bestPrio common.Hash
-		for _, m := range w.set.Members {
+		for _, m := range set.Members {
 			if !m.Chamber || !m.Online {
 				continue
 			}
-			c := w.set.Sortition(m, w.seed, index, stepProposal, cp.ProposerThreshold)
+			c := set.Sortition(m, seed, index, stepProposal, cp.ProposerThreshold)
 			if c.J >= 1 {
 				p := ucon.VrfComputePriority(c.Value, c.J)
 				if best == nil || strings.Compare(string(p[:]), string(bestPrio[:])) > 0 {
@@ -215,20 +249,20 @@ func (w *world) findHonest() *honest {
 		}
 		h := &honest{index: index, proposer: best, pcred: bestCred, creds: map[int]forge.Credential{}}
 		sum := uint64(0)
-		for _, m := range w.set.Members {
+		for _, m := range set.Members {
 			if !m.Chamber || !m.Online {
 				continue
 			}
-			c := w.set.Sortition(m, w.seed, index, stepPrecommit, cp.ValidatorThreshold)
+			c := set.Sortition(m, seed, index, stepPrecommit, cp.ValidatorThreshold)
 			h.creds[m.I] = c
 			sum += uint64(c.J)
 		}
 		if sum >= quorumOf(cp.ValidatorThreshold) {
 			if w.cert {
 				csum := uint64(0)
-				for _, m := range w.set.Members {
+				for _, m := range set.Members {
 					if m.Chamber && m.Online {
-						csum += uint64(w.set.Sortition(m, w.certSeed, index, stepCert, cp.CertValThreshold).J)
+						csum += uint64(set.Sortition(m, w.certSeed, index, stepCert, cp.CertValThreshold).J)
 					}
 				}
 				if csum < certQuorumOf(cp.CertValThreshold) {
@@ -261,6 +295,12 @@ func (w *world) build(hn *honest, ops []string) *variant {
 		return false
 	}
 	v := &variant{ops: ops, proposerOK: true}
+	if has("header-of-other-height-set") {
+		return w.buildOtherHeight(ops, false)
+	}
+	if has("header-on-other-height-seed") {
+		return w.buildOtherHeight(ops, true)
+	}
 	h := forge.HeaderTemplate(w.parent, r)
 	propTh, valTh, certTh := cp.ProposerThreshold, cp.ValidatorThreshold, cp.CertValThreshold
 	total := w.set.Total.Uint64()
@@ -314,6 +354,28 @@ func (w *world) build(hn *honest, ops []string) *variant {
 			return nil
 		}
 		proposer, pcred, claimJ, sealKey = z, zc, 0, z.Key
+		v.proposerOK = false
+	case has("proposer-of-other-height-set"):
+		// the proposer's seats as the records of another height would give them
+		var z *forge.Member
+		for _, m2 := range w.set2.Members {
+			if m2.Chamber && m2.Online && m2.Idx >= 0 && m2.I < len(w.set.Members) {
+				c2 := w.set2.Sortition(m2, w.seed, hn.index, stepProposal, cp.ProposerThreshold)
+				mm := w.set.Members[m2.I]
+				var jt uint32
+				if mm.Idx >= 0 && mm.Chamber && mm.Online {
+					jt = w.set.Sortition(mm, w.seed, hn.index, stepProposal, cp.ProposerThreshold).J
+				}
+				if c2.J >= 1 && c2.J != jt {
+					z, pcred = mm, c2
+					break
+				}
+			}
+		}
+		if z == nil {
+			return nil
+		}
+		proposer, claimJ, sealKey = z, pcred.J, z.Key
 		v.proposerOK = false
 	case has("proposer-wrong-index-credential"):
 		pcred = w.set.Sortition(proposer, w.seed, hn.index+1, stepProposal, cp.ProposerThreshold)
@@ -392,7 +454,8 @@ func (w *world) build(hn *honest, ops []string) *variant {
 	}
 	q := quorumOf(cp.ValidatorThreshold)
 	if has("drop-below-quorum") || has("duplicate-votes") || has("house-voter") || has("offline-voter") || has("outsider-voter") ||
-		has("replayed-other-block") || has("wrong-index-votes") || has("wrong-step-credential") || has("inflated-votes") || has("few-votes") {
+		has("replayed-other-block") || has("wrong-index-votes") || has("wrong-step-credential") || has("inflated-votes") || has("few-votes") ||
+		has("voter-of-other-height-set") || has("credential-of-other-height-seed") {
 		// keep a strict subset whose true weight is below the protocol quorum
 		r.Shuffle(len(es), func(i, j int) { es[i], es[j] = es[j], es[i] })
 		for len(es) > 0 && sumTrue(es) >= q {
@@ -480,6 +543,46 @@ func (w *world) build(hn *honest, ops []string) *variant {
 			es = append(es, mk(m, hash, cidx, cidx, stepPrevote))
 		}
 	}
+	if has("voter-of-other-height-set") {
+		// votes as the validator records of ANOTHER height (seed look-back header / parent) would
+		// justify them: status, role, stake, total stake and list index of that set
+		for _, m2 := range w.set2.Members {
+			if !m2.Chamber || !m2.Online || m2.Idx < 0 {
+				continue
+			}
+			var c forge.Credential
+			if g := kit.Guard(func() { c = w.set2.Sortition(m2, w.seed, cidx, stepPrecommit, cp.ValidatorThreshold) }); g != nil || c.J == 0 {
+				continue
+			}
+			vt := forge.SignVote(m2, c, hash, round, cidx, stepPrecommit, w.seed)
+			e := entry{v: vt}
+			if m2.I < len(w.set.Members) {
+				mm := w.set.Members[m2.I]
+				vt.Signer = mm
+				// ground truth under the set that counts: member, online chamber, same list index, same seat count
+				if mm.Idx >= 0 && mm.Chamber && mm.Online && mm.Idx == m2.Idx {
+					if jt := w.jTrue(mm, cidx); jt >= 1 && jt == c.J {
+						e.valid, e.jTrue = true, jt
+					}
+				}
+			}
+			es = append(es, e)
+		}
+	}
+	if has("credential-of-other-height-seed") {
+		// credentials drawn on the seed of another header (stake look-back header n-16, or the parent)
+		os := common.Hash{1}
+		if r.Intn(2) == 0 {
+			os = common.Hash{2}
+		}
+		for _, m := range others() {
+			var c forge.Credential
+			if g := kit.Guard(func() { c = w.set.Sortition(m, os, cidx, stepPrecommit, cp.ValidatorThreshold) }); g != nil || c.J == 0 {
+				continue
+			}
+			es = append(es, entry{v: forge.SignVote(m, c, hash, round, cidx, stepPrecommit, os)})
+		}
+	}
 	if has("inflated-votes") && len(es) > 0 {
 		i := r.Intn(len(es))
 		cpy := *es[i].v
@@ -557,6 +660,80 @@ func (w *world) build(hn *honest, ops []string) *variant {
 	}
 	v.header = h
 	v.entries = es
+	return v
+}
+
+// buildOtherHeight forges a header that is entirely honest with respect to the validator records of
+// ANOTHER height (the ones the seed look-back header and the parent carry): proposer, seats, voters,
+// list indexes and total stake of that set. Ground truth stays the set at the stake look-back.
+func (w *world) buildOtherHeight(ops []string, otherSeed bool) *variant {
+	if w.cert {
+		return nil
+	}
+	// otherSeed: the right validator set, but every credential drawn on the seed of the header at the
+	// STAKE look-back distance instead of the seed look-back header's
+	set, seed, slot := w.set2, w.seed, 0
+	if otherSeed {
+		set, seed, slot = w.set, common.Hash{1}, 1
+	}
+	if w.hnX[slot] == nil && !w.hnXTried[slot] {
+		w.hnXTried[slot] = true
+		w.hnX[slot] = w.findHonestIn(set, seed)
+	}
+	hn := w.hnX[slot]
+	if hn == nil {
+		return nil
+	}
+	r := w.r
+	cp := w.yp.CaravelParams
+	v := &variant{ops: ops}
+	h := forge.HeaderTemplate(w.parent, r)
+	var newSeed common.Hash
+	r.Read(newSeed[:])
+	prio := ucon.VrfComputePriority(hn.pcred.Value, hn.pcred.J)
+	if _, err := forge.Propose(h, hn.proposer, hn.pcred, hn.index, newSeed, cp.ProposerThreshold, cp.ValidatorThreshold, cp.CertValThreshold, hn.pcred.J, prio, hn.proposer.Key); err != nil {
+		return nil
+	}
+	// ground truth: the set at the stake look-back and the seed of the seed look-back header
+	if !otherSeed && hn.proposer.I < len(w.set.Members) {
+		mm := w.set.Members[hn.proposer.I]
+		if mm.Idx >= 0 && mm.Chamber && mm.Online {
+			jt := w.set.Sortition(mm, w.seed, hn.index, stepProposal, cp.ProposerThreshold).J
+			v.proposerOK = jt >= 1 && jt == hn.pcred.J
+		}
+	}
+	hash := h.Hash()
+	var es []entry
+	var vs []*forge.Vote
+	for _, m2 := range set.Members {
+		if !m2.Chamber || !m2.Online || m2.Idx < 0 {
+			continue
+		}
+		c := hn.creds[m2.I]
+		if c.J == 0 {
+			continue
+		}
+		vt := forge.SignVote(m2, c, hash, h.Number, hn.index, stepPrecommit, seed)
+		e := entry{v: vt}
+		if !otherSeed && m2.I < len(w.set.Members) {
+			mm := w.set.Members[m2.I]
+			vt.Signer = mm
+			if mm.Idx >= 0 && mm.Chamber && mm.Online && mm.Idx == m2.Idx {
+				if jt := w.jTrue(mm, hn.index); jt >= 1 && jt == c.J {
+					e.valid, e.jTrue = true, jt
+				}
+			}
+		}
+		es = append(es, e)
+		vs = append(vs, vt)
+	}
+	if err := forge.AttachVotes(h, hn.index, vs, forge.Aggregate(vs)); err != nil {
+		return nil
+	}
+	if err := forge.Seal(h, hn.proposer.Key); err != nil {
+		return nil
+	}
+	v.header, v.entries = h, es
 	return v
 }
 
@@ -682,6 +859,7 @@ var certSingles = []string{"cert-aggregate-empty", "cert-drop-below-quorum", "ce
 var singles = []string{
 	"drop-below-quorum", "few-votes", "exact-quorum", "duplicate-votes", "house-voter", "offline-voter", "outsider-voter",
 	"replayed-other-block", "wrong-index-votes", "wrong-step-credential", "inflated-votes", "container-index-differs",
+	"voter-of-other-height-set", "credential-of-other-height-seed", "proposer-of-other-height-set", "header-of-other-height-set", "header-on-other-height-seed",
 	"author-validator-threshold", "author-proposer-threshold",
 	"aggregate-garbage", "aggregate-empty", "aggregate-subset", "aggregate-other-payload",
 	"proposer-outsider", "proposer-zero-seats", "proposer-wrong-index-credential", "proposer-inflated-seats", "proposer-wrong-priority",
@@ -703,7 +881,7 @@ var combos = [][]string{
 // credentials to THIS block, so every way of spoiling the aggregate is crossed with every way of
 // adding votes that were not given for this block/index/step.
 var aggOps = []string{"aggregate-empty", "aggregate-garbage", "aggregate-other-payload"}
-var foreignOps = []string{"replayed-other-block", "wrong-index-votes", "wrong-step-credential", "house-voter", "offline-voter", "duplicate-votes"}
+var foreignOps = []string{"voter-of-other-height-set", "credential-of-other-height-seed", "replayed-other-block", "wrong-index-votes", "wrong-step-credential", "house-voter", "offline-voter", "duplicate-votes"}
 var certForeignOps = []string{"cert-other-block", "cert-wrong-step", "cert-precommit-credentials", "cert-duplicate"}
 
 func run(c *kit.Ctx) {
@@ -820,6 +998,9 @@ func judge(c *kit.Ctx, w *world, hn *honest, ops []string) {
 		}
 		if err == nil {
 			accepted = true
+			if len(v.ops) == 0 {
+				c.Count("honest_accepted_by_"+call.name, 1)
+			}
 			if !oracle {
 				reason := fmt.Sprintf("valid vote weight under the protocol threshold = %d, protocol quorum = %d, proposer credential valid under protocol threshold = %v", sum, q, v.proposerOK)
 				if w.cert {
